@@ -67,14 +67,10 @@ func runC01(ctx *h.Ctx) int {
 		for _, opt := range []bool{true, false} {
 			res := h.Compile(pr.Src, optsOf(prog, opt))
 			k.Count("evaluations", 1)
-			if res.Panic != nil {
-				k.Count("panics", 1)
+			if !res.OK() {
 				k.Count("rejected", 1)
-				return
-			}
-			if res.Err != nil {
-				k.Count("rejected", 1)
-				k.Count("rejected: "+rejectFamily(res.Err.Error()), 1)
+				k.Count("rejected: "+rejectFamily(res.ErrString()), 1)
+				rejectedValid(k, prog, res, false)
 				return
 			}
 			k.Count("accepted", 1)
